@@ -111,6 +111,15 @@ class Cmp(object):
 
 vcmp = np.vectorize(Cmp)
 
+def _has_nan(value):
+    """
+    native python ordering is meaningless once a nan is present (every comparison with nan is False), 
+    so we need to know if there is a nan among the values, or inside tuples/lists of values
+    """
+    if isinstance(value, (tuple, list)):
+        return any(_has_nan(v) for v in value)
+    return isinstance(value, (float, np.floating)) and value != value
+
 def sort(iterable):
     """
     implements sorting allowing for comparing of not-same-type objects
@@ -133,6 +142,9 @@ def sort(iterable):
     >>> sort([1,3,2,None]) == [None, 1, 2, 3]
 
     """
+    iterable = list(iterable)
+    if _has_nan(iterable):
+        return sorted(iterable, key = Cmp)
     try:
         return sorted(iterable)
     except TypeError:
